@@ -234,6 +234,13 @@ class World:
             rec["res"] = self._call(fn)
             rec["model_alive"] = self.alive(h)
             rec["model_owner"] = self.cur_inc(h.pid)
+        elif kind == "wait":          # ("wait", h[, "procs"]) : wait(timeout=0) / wait_procs([obj], timeout=0) on the object
+            h = self.handles[op[1]]
+            if len(op) > 2 and op[2] == "procs":
+                rec["res"] = self._call(lambda: [len(x) for x in ps.wait_procs([h.obj], timeout=0)])
+            else:
+                rec["res"] = self._call(lambda: h.obj.wait(timeout=0))
+            rec["model_alive"] = self.alive(h)
         elif kind == "cmp":
             pairs = []
             hs = self.handles
